@@ -16,6 +16,8 @@ from .tz import tawazi
 # ------------------------------------------------------------------------------ generation
 def gen_hist_case(rng, max_n=6, max_ops=7):
     case = kgraph.gen_graph_case(rng, max_n=max_n)
+    case.pop("idx_edges", None)
+    case.pop("idx_out", None)
     n = case["n"]
     nparams = rng.randint(0, 2)
     case["params"] = [dict(default=None if rng.random() < 0.5 else rng.randrange(100)) for _ in range(nparams)]
